@@ -98,6 +98,7 @@ package ucfg
 //@ ensures err == nil ==> c != nil && c.fields != nil
 //@ ensures err == nil ==> c == cfgEval(self)
 //@ ensures err != nil ==> cfgEval(self) == nil
+//@ ensures [sub_always] typeof(self) == cfgSub ==> err == nil
 
 //@ func (*fields).array
 //@ props C12
@@ -280,12 +281,22 @@ package ucfg
 
 //@ ghost func mergedInto(to *Config, from *Config, opts *options) bool
 
+// mergeConfig: both halves of a node are merged - the dictionary by mergeConfigDict, then the list by the strategy the
+// policy selects. The clauses are the node-level statement of C01 composed from the two callees' contracts (their
+// ownership preconditions arrOK/dictOK are assumed here: sweep tier).
+// srcOutside: the source and the options are not part of the destination's tree (no self-merge; assumed by the clauses)
+//@ pred srcOutside(to *Config, from *Config, opts *options) := !inTree(to, opts) && !inTree(to, from) && !inTree(to, from.fields) && !inTree(to, base(from.fields.a))
 //@ func mergeConfig
-//@ props C07
+//@ props C07 C01
 //@ sweep
 //@ requires to != nil && to.fields != nil && from != nil && from.fields != nil
 //@ modifies tree(to)
 //@ ensures [naming !unproved] result == nil ==> mergedInto(to, from, opts)
+//@ ensures [append_len @C01] old(srcOutside(to, from, opts)) && result == nil && old(opts.configValueHandling) == cfgArrAppend ==> len(to.fields.a) == old(len(to.fields.a)) + old(len(from.fields.a))
+//@ ensures [prepend_len @C01] old(srcOutside(to, from, opts)) && result == nil && old(opts.configValueHandling) == cfgArrPrepend ==> len(to.fields.a) == old(len(to.fields.a)) + old(len(from.fields.a))
+//@ ensures [replace_len @C01] old(srcOutside(to, from, opts)) && result == nil && (old(opts.configValueHandling) == cfgReplaceValue || old(opts.configValueHandling) == cfgArrReplaceValue) && old(len(from.fields.a)) > 0 ==> len(to.fields.a) == old(len(from.fields.a))
+//@ ensures [index_wise_len @C01] old(srcOutside(to, from, opts)) && result == nil && old(opts.configValueHandling) == cfgMergeValues ==> (old(len(to.fields.a)) >= old(len(from.fields.a)) ==> len(to.fields.a) == old(len(to.fields.a))) && (old(len(to.fields.a)) < old(len(from.fields.a)) ==> len(to.fields.a) == old(len(from.fields.a)))
+//@ ensures [dict_first @C01] old(srcOutside(to, from, opts)) && result == nil && old(from.fields.d) == nil && (old(opts.configValueHandling) == cfgArrAppend || old(opts.configValueHandling) == cfgArrPrepend) ==> to.fields.d == old(to.fields.d)
 
 //@ func mergeValues :: opts, old, v -> r, err
 //@ props C01
@@ -974,6 +985,33 @@ package ucfg
 //@ requires t != nil
 //@ ensures [spec] ok == fhOk(t, fieldName, idx) && h == fhPol(t, fieldName, idx) && c == fhChild(t, fieldName, idx)
 
+// C16: a field option builds its handling tree inside the options it is applied to: the tree is a fresh one (first
+// field option) or the one the options already own - an option value never keeps or shares a tree between the
+// option lists it is used in (the closure's table is read-only)
+//@ func PathSep :: sep -> r
+//@ props C07
+//@ pure
+
+//@ func newFieldHandlingTree :: -> r
+//@ props C07 C16
+//@ sweep
+//@ pure
+//@ ensures [fresh] r != nil && fresh(r)
+
+//@ func (*fieldHandlingTree).merge :: t, other, opts -> err
+//@ props C07
+//@ sweep
+//@ requires t != nil
+//@ modifies tree(t)
+
+//@ func makeFieldOptValueHandling$1$(*options)#2 :: o
+//@ props C07 C16
+//@ sweep
+//@ requires o != nil && !inTree(o.fieldHandlingTree, o)
+//@ modifies *
+//@ ensures [own_tree] old(o.fieldHandlingTree) == nil ==> fresh(o.fieldHandlingTree)
+//@ ensures [kept_tree] old(o.fieldHandlingTree) != nil ==> o.fieldHandlingTree == old(o.fieldHandlingTree)
+
 //@ func includeWildcard :: child, parent -> r, err
 //@ trusted
 //@ pure
@@ -1025,11 +1063,12 @@ package ucfg
 //@ ensures [spec] result == (c.parent == nil)
 
 //@ func (cfgSub).SetContext :: c, ctx
-//@ props C15 C10 C11
+//@ props C15 C10 C11 C14
+//@ tagged-only C14
 //@ requires c.c != nil
 //@ modifies c.c.ctx
 //@ ensures [attach] old(c.c.ctx.parent) == nil ==> c.c.ctx == ctx
-//@ ensures [attached_untouched] old(c.c.ctx.parent) != nil ==> c.c.ctx == old(c.c.ctx)
+//@ ensures [attached_untouched @C15,C10,C11,C14] old(c.c.ctx.parent) != nil ==> c.c.ctx == old(c.c.ctx)
 //@ ensures [rest] c.c.fields == old(c.c.fields) && c.c.metadata == old(c.c.metadata)
 
 //@ func (namedField).Remove :: n, opts, elem -> removed, err
@@ -1408,10 +1447,12 @@ package ucfg
 // C04: a value that takes its setting through a custom Unpack method is validated before it is handed back: the
 // validators of its field accept it and so does its own Validate() method
 //@ func reifyMergeValue :: opts, oldValue, val -> r, err
-//@ props C11 C07 C04 C06
+//@ props C11 C07 C04 C06 C13
+//@ tagged-only C13
 //@ norte
 //@ uses chase
 //@ at-call reifyStruct requires rvType(orig) != atentry(tRegexp)
+//@ at-call reifyStruct requires orig == chasedP(chasedI(caller(oldValue))) || orig == copyRV(chasedP(chasedI(caller(oldValue))))
 //@ uses tconfig
 //@ at-call (Value).Convert#2 requires convTo(rvType(v), t)
 //@ ensures [unpacker_validated @C04] err == nil && !((rvKind(chasedP(chasedI(oldValue))) == 22 || rvKind(chasedP(chasedI(oldValue))) == 20) && rvNil(chasedP(chasedI(oldValue)))) && !convTo(old(tConfigPtr), ptrTo(chasedT(rvType(chasedP(chasedI(oldValue)))))) && isUnp(chasedP(chasedI(oldValue))) ==> selfValid(chasedP(chasedI(oldValue))) && accepts(opts.validators, rvAny(chasedP(chasedI(oldValue))))
@@ -1552,6 +1593,31 @@ package ucfg
 //@ ensures err == nil ==> didSet(self, elem, v)
 //@ ensures typeof(elem) == cfgSub ==> metaof(elem) == old(metaof(elem))
 
+// ---------------------------------------------------------------- C01 / C06: one key of a map or struct source
+// normalizeSetField stores the normalized value of one key of the source under the path the key names
+// (pathFor: the same parser the read side uses). stored(p, cfg) is a token only (cfgPath).SetValue produces.
+// - the first value seen for a path is stored, nil or not (a nil is swallowed only when something is there already)
+// - when the path already holds a sub-configuration and the new value is one, the NEW one is merged INTO the old one
+//@ ghost func stored(p cfgPath, c *Config) bool
+//@ func isSub :: v -> r
+//@ props C01 C06 C07
+//@ pure
+//@ ensures [spec] r == (v != nil && typeof(v) == cfgSub)
+
+//@ func (cfgSub).toConfig :: c, opts -> r, err
+//@ props C01 C06 C07
+//@ pure
+//@ ensures [refine] err == nil && r == c.c
+
+//@ func normalizeSetField :: cfg, opts, tagOpts, name, v -> result
+//@ props C01 C06 C07
+//@ sweep
+//@ requires cfg != nil && opts != nil
+//@ modifies *
+//@ at-call mergeConfig requires pathOk(pathFor(entry(name), entry(opts)), entry(cfg)) && to == cfgEval(pathVal(pathFor(entry(name), entry(opts)), entry(cfg))) && to != nil
+//@ at-call (cfgPath).SetValue requires p == pathFor(entry(name), entry(opts)) && cfg == entry(cfg)
+//@ ensures [first_value_stored] result == nil && (!pathOk(pathFor(name, opts), cfg) || pathVal(pathFor(name, opts), cfg) == nil || typeof(pathVal(pathFor(name, opts), cfg)) == *cfgNil) ==> stored(pathFor(name, opts), cfg)
+
 //@ func isNil :: v -> r
 //@ props C13 C12
 //@ pure
@@ -1564,6 +1630,7 @@ package ucfg
 //@ requires forall j int :: 0 <= j && j < len(p.fields) ==> p.fields[j] != nil
 //@ modifies *
 //@ ensures [typed @C12] isTyped(err)
+//@ ensures [naming !unproved] err == nil ==> stored(p, cfg)
 //@ loop 1 invariant len(fields) >= 1
 //@ loop 1 invariant len(fields) <= len(p.fields)
 //@ loop 1 invariant base(fields) == base(p.fields)
@@ -1879,12 +1946,13 @@ package ucfg
 //@ ensures [carries] result.(criticalError).baseError.reason == reason && result.(criticalError).baseError.class == ErrImplementation
 
 //@ func accessField :: structVal, fieldIdx, opts -> info, skip, err
-//@ props C13 C07
+//@ props C13 C07 C06
+//@ tagged-only C06
 //@ sweep
 //@ requires rvKind(structVal) == 25
 //@ rvwrites nothing
 //@ ensures [field_of_struct] err == nil && !skip ==> info.value == rvField(structVal, fieldIdx) && rvRootOf(info.value) == rvRootOf(structVal)
-//@ ensures [key] err == nil && !skip ==> isKeyOf(info.name, rtField(rvType(structVal), fieldIdx), old(opts.tag))
+//@ ensures [key @C13,C07,C06] err == nil && !skip ==> isKeyOf(info.name, rtField(rvType(structVal), fieldIdx), old(opts.tag))
 //@ ensures [caller_options_kept] opts.configValueHandling == old(opts.configValueHandling)
 //@ ensures [scope_kept] err == nil && !skip && old(opts.activeFields) != nil ==> info.options != nil && info.options.activeFields == old(opts.activeFields) && forall k string :: has(info.options.activeFields.fields, k) == old(has(opts.activeFields.fields, k))
 //@ ensures [settable !unproved] err == nil && !skip && rvCanSet(structVal) ==> rvCanSet(info.value)
@@ -2226,7 +2294,8 @@ package ucfg
 // C14: a value that is not the one found in the configuration (the null made up for a missing setting of struct
 // type) is located at the field's name below cfg, so that errors raised for it name the setting
 //@ func reifyGetField :: cfg, opts, name, to, fieldType -> result
-//@ props C13 C07 C14
+//@ props C13 C07 C14 C06
+//@ tagged-only C06
 //@ sweep
 //@ at-call reifyMergeValue requires val != pathVal(pathFor(entry(name), entry(opts).opts), entry(cfg)) ==> typeof(val) == *cfgNil && val.(*cfgNil).cfgPrimitive.ctx.field == entry(name) && val.(*cfgNil).cfgPrimitive.ctx.parent == subval(entry(cfg))
 //@ requires cfg != nil && opts.opts != nil && rvCanSet(to)
@@ -2286,13 +2355,14 @@ package ucfg
 //@ ensures [restore] deref(opts).activeFields == deref(parentFields)
 
 //@ func (*Config).flattenedKeys :: c, opts -> keys
-//@ props C11 C07 C08
+//@ props C11 C07 C08 C15
 //@ nonil
 //@ requires c != nil && c.fields != nil && opts != nil
 //@ modifies opts.activeFields
 //@ at-call (*Config).FlattenedKeys requires false
 //@ at-call iface:value.toConfig requires opts != nil && opts.activeFields != nil && forall k string :: !has(opts.activeFields.fields, k)
 //@ at-call (*Config).flattenedKeys requires opts == entry(opts)
+//@ at-call iface:value.Context requires cfgEval(self) == nil
 //@ ensures [fresh_result] keys == nil || fresh(base(keys))
 //@ ensures [scope] opts.activeFields == old(opts.activeFields)
 //@ loop 1 invariant keys == nil || fresh(base(keys))
@@ -2315,6 +2385,9 @@ package ucfg
 //@ sweep
 //@ requires rvKind(chased(val)) == 17 || rvKind(chased(val)) == 23
 //@ loop 1 invariant rvKind(val) == 17 || rvKind(val) == 23
+//@ loop 1 invariant val == chased(entry(val))
+//@ loop 1 invariant forall j int :: 0 <= j && j < i ==> recValid(rvIndex(val, j))
+//@ ensures [every_element_validated @C04] result == nil ==> forall j int :: 0 <= j && j < rvLen(chased(val)) ==> recValid(rvIndex(chased(val), j))
 
 //@ func normalizeMapInto :: cfg, opts, from -> result
 //@ props C07
@@ -2369,12 +2442,14 @@ package ucfg
 //@ requires rvKind(chased(from)) == 25
 //@ at-call normalizeSetField requires isKeyOf(name, rtField(rvType(caller(v)), caller(i)), entry(opts).tag)
 
-// settableCopy: an addressable copy (the pointee of a fresh pointer)
+// settableCopy: an addressable copy (the pointee of a fresh pointer); copyRV(v) names the handle it returns
+//@ ghost func copyRV(v reflect.Value) reflect.Value
 //@ func settableCopy :: v -> r
 //@ props C07
 //@ pure
 //@ rvwrites nothing
 //@ ensures [settable] rvCanSet(r) && rvCanAddr(r) && rvKind(r) == rvKind(v) && rvType(r) == rvType(v) && fresh(rvRootOf(r))
+//@ ensures [naming !unproved] r == copyRV(v)
 
 //@ func reifyDoArray$1
 //@ props C08
